@@ -1401,7 +1401,7 @@ MANIFEST_TEXT.update({
 MANIFEST_TEXT.update({
     "C05": {"technique": "TLC over all small programs under a control-flow abstraction of the TLA+ machine (refinement-checked); programs replayed on real verifier + interpreter",
             "text": "Exhaustive: every program up to the length bound over the template alphabet, every path the abstraction allows (which covers all inputs), invariant accepted => not stuck, with a negative control (the pinned commit's rule fails) and a refinement check tying the abstraction to the full machine. Each program is then loaded and run on the real code, which must return Ok/Err.",
-            "note": NOTE_COMMON + " Programs longer than the bound are covered only by the random accepted-program traces."},
+            "note": NOTE_COMMON + " Programs longer than the bound: the design-level argument is proved for any length with TLAPS on an abstraction (SafetyAbs.tla) that TLC shows MachineCF to refine on the bounded universe; on the implementation side they are covered by the long-program families and the random accepted-program traces."},
     "C06": {"technique": "TLA+ WellFormed predicate evaluated by TLC on rule-boundary byte strings; verdicts replayed through every loading entry point; verdicts recorded while /repo's own tests run validated by TLC",
             "text": "Each enumerated byte string gets its verdict from the named rules of Verifier.tla (rule independence checked: every rule is the sole reason of some refusal); the real verifier must return the same verdict through new() and set_program() of all four VM kinds, as an error value.",
             "note": NOTE_COMMON},
